@@ -232,18 +232,21 @@ impl Cqueue {
     // when the select coroutine is done, check the panic status
     // if it's panicked, re throw the panic data
     fn check_panic(&self, id: usize) {
+        use generator::Error;
+        #[cfg(may_verif)]
+        crate::verif::pt("cq.check_panic", crate::verif::addr(self), id, 0);
+        // take the handle out first: the lock must not be held (and poisoned) across the
+        // re-throw below, `Drop` needs it again while that panic unwinds
+        let handle = self.selectors.lock().unwrap()[id]
+            .take()
+            .expect("join handler not set");
+        // always wait until the select coroutine is really done: it uses the cqueue to the end
+        let ret = handle.join();
         if self.is_panicking.load(Ordering::Relaxed) {
             return;
         }
 
-        use generator::Error;
-        #[cfg(may_verif)]
-        crate::verif::pt("cq.check_panic", crate::verif::addr(self), id, 0);
-        match self.selectors.lock().unwrap()[id]
-            .take()
-            .expect("join handler not set")
-            .join()
-        {
+        match ret {
             Ok(_) => {}
             Err(panic) => {
                 if let Some(err) = panic.downcast_ref::<Error>() {
